@@ -130,11 +130,26 @@ func verifNatsSubscribe(c *nats.Conn, subj string, cb nats.MsgHandler) (*nats.Su
 }
 
 func verifNatsQueueSubscribe(c *nats.Conn, subj, queue string, cb nats.MsgHandler) (*nats.Subscription, error) {
-	s := &verifNatsSub{handle: &nats.Subscription{Subject: subj, Queue: queue}, subject: subj, queue: queue, cb: cb,
-	}
+	s := &verifNatsSub{handle: &nats.Subscription{Subject: subj, Queue: queue}, subject: subj, queue: queue, cb: cb}
 	verifBroker.subs = append(verifBroker.subs, s)
 	go s.dispatch()
 	return s.handle, nil
+}
+
+// channel subscriptions: nats.go hands a message to the channel with a non-blocking
+// send and DROPS it (slow consumer) when the channel is full
+func verifNatsChanQueueSubscribe(c *nats.Conn, subj, queue string, ch chan *nats.Msg) (*nats.Subscription, error) {
+	return verifNatsQueueSubscribe(c, subj, queue, func(m *nats.Msg) {
+		select {
+		case ch <- m:
+		default:
+			verifReach("nats-slow-consumer-drop")
+		}
+	})
+}
+
+func verifNatsChanSubscribe(c *nats.Conn, subj string, ch chan *nats.Msg) (*nats.Subscription, error) {
+	return verifNatsChanQueueSubscribe(c, subj, "", ch)
 }
 
 func verifFindSub(h *nats.Subscription) *verifNatsSub {
